@@ -68,6 +68,9 @@ type fcase struct {
 	LdlL     [][]rat  `json:"ldll"`
 	LdlD     []rat    `json:"ldld"`
 	SuffPD   bool     `json:"suffpd"`
+	RootK    bool     `json:"rootk"`
+	SqrtM    [][]rat  `json:"sqrtm"`
+	InvSqrtM [][]rat  `json:"invsqrtm"`
 	CondK    bool     `json:"condk"`
 	Cond     struct {
 		A    rat  `json:"a"`
